@@ -1039,8 +1039,25 @@ func sweepTable(fatalf func(string, ...any), name string, seed []byte, pick func
 		return
 	}
 	nf := len(b) / 2
+	get := func(i int) int { return int(seed[2*i])<<8 | int(seed[2*i+1]) }
 	for i := 0; i < nf; i++ {
-		for _, v := range []int{0, 1, 0x7FFF, 0x8000, 0xFFFF} {
+		vals := []int{0, 1, 0x7FFF, 0x8000, 0xFFFF}
+		// values that stand in a relation to a neighbouring field (the start
+		// of a range equal to the end of the previous one, a count one above
+		// or below an index, ...): the fields one to three places away (a
+		// record of these tables has at most three fields), and those +-1
+		for _, d := range []int{-3, -2, -1, 1, 2, 3} {
+			if j := i + d; j >= 0 && j < nf {
+				v := get(j)
+				vals = append(vals, v, (v+1)&0xFFFF, (v-1)&0xFFFF)
+			}
+		}
+		done := map[int]bool{get(i): true}
+		for _, v := range vals {
+			if done[v] {
+				continue
+			}
+			done[v] = true
 			o0, o1 := set(2*i, v)
 			try(b, fmt.Sprintf("field %d = %#x", i, v))
 			b[2*i], b[2*i+1] = o0, o1
